@@ -29,7 +29,7 @@ LEVEL_TEXT = {
 NOTE = ("Trusted base: CPython/numpy, vp/ref.py (exact-rational models written from the statements), the workload generators, and - for the "
         "'emulated' configuration - vp/pyxemu.py (mechanical .pyx transliteration; no Cython-generated C is ever executed in this sandbox). "
         "Always-on monitors in every check: icontract class invariants (M1), input-immutability guard with read-only arrays (M2), icontract kernel post-conditions (M3), "
-        "branch-arm observer (M4, evidence only), cursor-progress monitor on the kernels' while-scans (M6), repeat-call monitor (M7), bounded-progress watchdog. "
+        "branch-arm observer (M4, evidence only), cursor-progress monitor on the kernels' while-scans (M6), repeat-call monitor (M7), uninitialised-memory poison for np.empty (M8), bounded-progress watchdog. "
         "Held on the executions of each run only; evidence lists what was observed.")
 TECH = {
  "C01": "runtime monitoring: reference-model oracle (exact rational) over generated executions + cross-call history probes + cursor-progress / repeat-call monitors",
@@ -73,7 +73,7 @@ m = {
  "version": 1,
  "setup_cmd": "/venv/bin/python -B -m vp.selftest",
  "hooks": {"guard": "PYSPIKE_VERIF",
-           "enable": "no source hooks exist in /repo: all instrumentation is applied from the harness at import time (attribute patching of backend kernels with icontract post-conditions, in-place icontract class invariants, sys.modules injection of the emulated .pyx modules, sys.monitoring branch-arm observer)",
+           "enable": "no source hooks exist in /repo: all instrumentation is applied from the harness at import time (attribute patching of backend kernels with icontract post-conditions, in-place icontract class invariants, sys.modules injection of the emulated .pyx modules, sys.monitoring branch-arm observer, replacement of the modules' global `np` by a proxy whose empty/empty_like return poisoned memory)",
            "baseline_off_cmd": "cd /repo && /venv/bin/python -m pytest -ra -q -p no:cacheprovider --timeout=900 --continue-on-collection-errors",
            "source_commits": [], "add_only": True},
  "engines": [{"name": "vp", "path": "/verif/vp", "serves_properties": [p["id"] for p in props],
